@@ -130,7 +130,8 @@ impl Model<Protobuf> {
             let proto = Self::definition_to_protobuf(rust);
             model
                 .definitions
-                .push(Definition(proto_definition_name(name), proto));
+                // the name is the Rust name already, the one components of this type refer to
+                .push(Definition(name.clone(), proto));
         }
         model
     }
